@@ -1,4 +1,5 @@
 import P2sh.Core.Encode
+import P2sh.Core.Fn.Prog
 import P2sh.Props.C14
 /-!
 # C14 for whole programs of the core fragment: encoded losslessly, or rejected
@@ -129,6 +130,81 @@ theorem compile_lossless_or_rejected (ss : List CStmt) :
           exact ⟨j, List.mem_cons_of_mem _ hj, hjf⟩
         · exact ⟨i, List.mem_cons_self, by simpa using hi⟩
     exact hex
+
+/-! ## whole programs with functions, closures, containers and builtin calls (`Core.Fn`) -/
+
+section fn
+open P2sh.Core.Fn
+
+/-- the compiler with its overflow check on a `Core.Fn` program: the main code and the code of
+every function constant (function literals at any nesting depth); `none`: rejected -/
+def compileCheckedT (T : List FTop) : Option (List Nat × List (FnDef × List Nat)) :=
+  if (compileT 0 0 T).all fitsI && (codesT 0 T).all (fun fc => fc.2.all fitsI) then
+    some (encode (compileT 0 0 T), (codesT 0 T).map (fun fc => (fc.1, encode fc.2)))
+  else none
+
+theorem exists_unfit : ∀ (code : List Instr), ¬ code.all fitsI = true → ∃ i ∈ code, fitsI i = false
+  | [], h => by simp at h
+  | i :: is, h => by
+    by_cases hi : fitsI i = true
+    · have : ¬ is.all fitsI = true := by simpa [hi] using h
+      obtain ⟨j, hj, hjf⟩ := exists_unfit is this
+      exact ⟨j, List.mem_cons_of_mem _ hj, hjf⟩
+    · exact ⟨i, List.mem_cons_self, by simpa using hi⟩
+
+theorem exists_unfit_code : ∀ (L : List (FnDef × List Instr)), ¬ L.all (fun fc => fc.2.all fitsI) = true →
+    ∃ fc ∈ L, ∃ i ∈ fc.2, fitsI i = false
+  | [], h => by simp at h
+  | fc :: rest, h => by
+    by_cases hf : fc.2.all fitsI = true
+    · have : ¬ rest.all (fun fc => fc.2.all fitsI) = true := by simpa [hf] using h
+      obtain ⟨fc', hm, hx⟩ := exists_unfit_code rest this
+      exact ⟨fc', List.mem_cons_of_mem _ hm, hx⟩
+    · obtain ⟨i, hi, hif⟩ := exists_unfit fc.2 hf
+      exact ⟨fc, List.mem_cons_self, i, hi, hif⟩
+
+/-- **encoded losslessly or rejected** (programs of `Core.Fn`): either the program is rejected —
+some instruction of the main code or of a function's code has an operand that does not fit the
+width `DEFINITIONS` declares for it: a constant / global index or a jump target beyond 65535 (two
+bytes), a local slot, an argument count, a captured-variable index or count, a builtin index
+beyond 255 (one byte), an array / map literal with more than 65535 parts — or the bytes of the
+main code AND of every function constant decode (`read_operands`) to exactly the instructions the
+compiler meant -/
+theorem compile_lossless_or_rejected_fn (T : List FTop) :
+    (compileCheckedT T = none ∧
+      ((∃ i ∈ compileT 0 0 T, fitsI i = false) ∨ ∃ fc ∈ codesT 0 T, ∃ i ∈ fc.2, fitsI i = false)) ∨
+    (∃ main fns, compileCheckedT T = some (main, fns) ∧
+      decodeAll ((compileT 0 0 T).length + 1) main =
+        some ((compileT 0 0 T).map fun i => (opcodeByName (instrOp i).1, (instrOp i).2)) ∧
+      fns.map (·.1) = (codesT 0 T).map (·.1) ∧
+      ∀ fc ∈ codesT 0 T, (fc.1, encode fc.2) ∈ fns ∧
+        decodeAll (fc.2.length + 1) (encode fc.2) = some (fc.2.map fun i => (opcodeByName (instrOp i).1, (instrOp i).2))) := by
+  unfold compileCheckedT
+  by_cases h1 : (compileT 0 0 T).all fitsI = true
+  · by_cases h2 : (codesT 0 T).all (fun fc => fc.2.all fitsI) = true
+    · right
+      refine ⟨encode (compileT 0 0 T), (codesT 0 T).map (fun fc => (fc.1, encode fc.2)), by simp [h1, h2],
+        decodeAll_encode _ h1 _ (Nat.lt_succ_self _), by simp, ?_⟩
+      intro fc hfc
+      have hf := List.all_eq_true.mp h2 fc hfc
+      exact ⟨List.mem_map.mpr ⟨fc, hfc, rfl⟩, decodeAll_encode _ hf _ (Nat.lt_succ_self _)⟩
+    · left
+      exact ⟨by simp [h2], Or.inr (exists_unfit_code _ h2)⟩
+  · left
+    exact ⟨by simp [h1], Or.inl (exists_unfit _ h1)⟩
+
+/-- non-vacuity: local slot 256, 256 arguments, 256 captured values, a 65536-part array literal do not fit; the limits do -/
+example : fitsI (.getLocal 256) = false ∧ fitsI (.call 256) = false ∧ fitsI (.closure 0 256) = false ∧ fitsI (.array 65536) = false ∧
+    fitsI (.getFree 256) = false ∧ fitsI (.getBuiltin 256) = false ∧ fitsI (.closure 65536 0) = false ∧
+    fitsI (.getLocal 255) = true ∧ fitsI (.call 255) = true ∧ fitsI (.closure 65535 255) = true ∧ fitsI (.hmap 65535) = true ∧
+    fitsI .getIndex = true ∧ fitsI .setIndex = true := by decide
+
+/-- non-vacuity: a small program with a function is accepted, its main code decodes back -/
+example : (compileCheckedT [.fnDef 1 0 [] [] ⟨1, 1, [.expr 1 (.lget 1 0)], 1⟩,
+      .stmt (.letG 2 1 (.call 2 (.gget 2 0) (.cons (.arrLit 2 .nil) .nil)))]).map (·.1) =
+    some (encode [.closure 0 0, .defGlobal 0, .getGlobal 0, .array 0, .call 1, .defGlobal 1]) := by decide
+
+end fn
 
 /-- non-vacuity: a jump target beyond 65535 and a constant index beyond 65535 do not fit; ordinary ones do -/
 example : fitsI (.jump 70000) = false ∧ fitsI (.const 65536) = false ∧ fitsI (.jump 65535) = true ∧
